@@ -1,4 +1,5 @@
 import PysnarkModel.Lemmas.Zkif
+import PysnarkModel.Gen.Api
 import PysnarkModel.Lemmas.Snarkjs
 import PysnarkModel.Gen.Constants
 /-!
@@ -170,5 +171,12 @@ example :
 /-- different private values, same circuit file; different number of private values, different -/
 example : circuitFile exTrace = circuitFile { exTrace with privs := [1000, -5] } ∧
     circuitFile exTrace ≠ circuitFile { exTrace with privs := [1000] } := by decide +kernel
+
+
+/-- **API surface pinned** (regenerated from the source on every run, `Gen/Api.lean`): the functions this property's model
+transcribes are exactly the functions the code has; an added or removed function changes the generated list and this
+obligation fails (the tie is then broken by construction and the check runs its extended search). -/
+theorem C11_api_surface :
+    Gen.api_zkif_backend = ["set_modulus", "LinearCombination.__init__", "LinearCombination.__add__", "LinearCombination.__sub__", "LinearCombination.__mul__", "LinearCombination.__neg__", "privval", "pubval", "zero", "one", "fieldinverse", "get_modulus", "add_constraint", "write_varlist", "prove", "write_circuit", "write_witness", "write_constraints"] := rfl
 
 end Pysnark
